@@ -128,7 +128,7 @@ TOTAL = [
     r"^alloc::slice::<impl \[T\]>::(sort_by_cached_key|to_vec_in|repeat)$", r"^alloc::slice::<impl alloc::borrow::ToOwned for \[T\]>::to_owned$",
     r"^alloc::vec::Vec::<.*>::(extend_from_within_checked|dedup_by_key|dedup_by|retain_mut|resize|resize_with|leak|spare_capacity_mut|try_reserve|reserve_exact|shrink_to|first_mut|last_mut|iter_mut|splice_checked|pop_if|push_within_capacity|into_iter|from_iter|as_mut_ptr|is_full|extend_one)$",
     r"^alloc::boxed::Box::<.*>::(new_uninit|new_zeroed|write|into_inner|leak|pin|from_raw|into_raw|as_ref|as_mut)$", r"^alloc::boxed::box_assume_init_into_vec_unsafe$", r"^alloc::boxed::(box_new_uninit|Box::<.*>::assume_init)$",
-    r"^alloc::str::<impl alloc::borrow::ToOwned for str>::to_owned$", r"^alloc::borrow::ToOwned::(to_owned|clone_into)$", r"^<.* as alloc::borrow::ToOwned>::to_owned$",
+    r"^alloc::str::<impl alloc::borrow::ToOwned for str>::to_owned$", r"^alloc::borrow::ToOwned::(to_owned|clone_into)$", r"^alloc::borrow::Cow::<'_, B>::(into_owned|to_mut|is_borrowed|is_owned)$", r"^<.* as alloc::borrow::ToOwned>::to_owned$",
     r"^core::str::converts::(from_utf8|from_utf8_mut)$", r"^core::str::<impl str>::(split_terminator|rsplitn|split_whitespace|split_ascii_whitespace|char_indices|matches|rmatches|match_indices|rfind|trim_matches|trim_start_matches|trim_end_matches|is_ascii|eq_ignore_ascii_case|to_ascii_uppercase|to_ascii_lowercase|encode_utf16|escape_debug|escape_default|split_inclusive|as_ptr|trim_ascii|bytes|chars|from_utf8|repeat|lines|into_string|into_boxed_str|make_ascii_uppercase|make_ascii_lowercase|get_mut|floor_char_boundary|ceil_char_boundary)$",
     r"^alloc::string::String::(from_utf8_lossy_owned|insert_str_checked|pop|truncate_checked|retain|into_boxed_str|as_mut_str|capacity|reserve|shrink_to_fit|extend|from_utf16_lossy|chars|leak)$",
     r"^core::num::<impl [iu](8|16|32|64|128|size)>::(is_negative|is_positive|signum|to_le_bytes|to_ne_bytes|from_ne_bytes|wrapping_neg|wrapping_shl|wrapping_shr|wrapping_abs|wrapping_div_checked|overflowing_mul|overflowing_neg|saturating_neg|saturating_abs|saturating_pow|saturating_sub_unsigned|saturating_add_signed|checked_neg|checked_abs|checked_pow|checked_rem|checked_shl|checked_shr|checked_add_signed|checked_sub_unsigned|checked_next_power_of_two|checked_ilog2|checked_ilog10|cast_signed|cast_unsigned|count_zeros|leading_ones|trailing_ones|reverse_bits|to_be|to_le|from_be|from_le|is_multiple_of|midpoint|checked_signed_diff|unbounded_shl|unbounded_shr|carrying_add|borrowing_sub|widening_mul|isqrt_checked|checked_isqrt)$",
